@@ -692,6 +692,106 @@ fn driver_join(src: &Src, gname: &str) -> R<String> {
                src.path, block.span().start().line, gname, params.join(" "), body))
 }
 
+/// How each kind of operation reports its failure in a worker loop (`copy_worker`, `dispatch_worker`): per `Operation` arm
+/// the list of routes — 1 = an Error update is sent, 2 = the worker returns the error (`return Err` / `?`), 99 = anything
+/// else found on the failure path (a `continue`, a retry, a swallowed error...)
+fn error_routes(src: &Src, fname: &str, gname: &str) -> R<String> {
+    let (_, block) = find_fn(src, fname)?;
+    struct V { arms: Vec<syn::Arm> }
+    impl<'ast> Visit<'ast> for V {
+        fn visit_arm(&mut self, a: &'ast syn::Arm) {
+            let p = quote::ToTokens::to_token_stream(&a.pat).to_string().replace(' ', "");
+            if p.starts_with("Operation::") { self.arms.push(a.clone()); }
+            syn::visit::visit_arm(self, a)
+        }
+    }
+    let mut v = V { arms: vec![] };
+    v.visit_block(block);
+    let mut rows = vec![];
+    for arm in &v.arms {
+        let p = quote::ToTokens::to_token_stream(&arm.pat).to_string().replace(' ', "");
+        let kind = if p.starts_with("Operation::Copy") { 0 } else if p.starts_with("Operation::Link") { 1 } else if p.starts_with("Operation::Special") { 2 } else { 9 };
+        let body = match &*arm.body { Expr::Block(b) => b.block.clone(), _ => return Err(format!("{}: arm {} is not a block", fname, p)) };
+        // the failure path: the `if let Err(e) = .. { .. }` block when there is one, else the `?` / `return Err` of the arm itself
+        let mut routes: Vec<u64> = vec![];
+        let mut handler = None;
+        for st in &body.stmts {
+            if let Stmt::Expr(Expr::If(i), _) = st {
+                let c = quote::ToTokens::to_token_stream(&i.cond).to_string().replace(' ', "");
+                if c.starts_with("letErr(e)=") { handler = Some(i.then_branch.clone()); }
+            }
+        }
+        match handler {
+            Some(h) => {
+                for st in &h.stmts {
+                    let t = quote::ToTokens::to_token_stream(st).to_string().replace(' ', "");
+                    if t.starts_with("error!") || t.starts_with("warn!") || t.starts_with("info!") || t.starts_with("debug!") { continue; }
+                    if t.contains(".send(StatusUpdate::Error(") && t.ends_with("?;") { routes.push(1); }
+                    else if t.starts_with("returnErr(") { routes.push(2); }
+                    else { routes.push(99); }
+                }
+            }
+            None => {
+                let t = quote::ToTokens::to_token_stream(&body).to_string().replace(' ', "");
+                if t.contains(".send(StatusUpdate::Error(") { routes.push(1); }
+                if t.contains(")?;") || t.contains("returnErr(") { routes.push(2); }
+                if t.contains("continue;") || t.contains(".ok();") || t.contains("ifletErr(") { routes.push(99); }
+            }
+        }
+        rows.push(format!("({}, {})", kind, nlist(&routes)));
+    }
+    Ok(format!("(* {}  fn {}: per operation kind (0 Copy, 1 Link, 2 Special) what its failure path does, in order: 1 sends an Error update, 2 returns the error from the worker, 99 anything else *)\nDefinition {} : list (N * list N) := [{}].\n",
+               src.path, fname, gname, rows.join("; ")))
+}
+
+/// main(): the loop that collects the status updates and the join that follows, as a function of the update stream and
+/// of the driver thread's result
+fn main_collect(src: &Src) -> R<String> {
+    let (_, block) = find_fn(src, "main")?;
+    let txt = |st: &Stmt| quote::ToTokens::to_token_stream(st).to_string().replace(' ', "");
+    let pos = block.stmts.iter().position(|st| matches!(st, Stmt::Expr(Expr::ForLoop(f), _) if quote::ToTokens::to_token_stream(&f.expr).to_string().replace(' ', "") == "stat_rx"))
+        .ok_or("main(): no `for stat in stat_rx` loop")?;
+    let f = match &block.stmts[pos] { Stmt::Expr(Expr::ForLoop(f), _) => f, _ => unreachable!() };
+    let binder = pat_ident(&f.pat).ok_or("main(): loop pattern")?;
+    let m = match f.body.stmts.as_slice() { [Stmt::Expr(Expr::Match(m), _)] => m, _ => return Err("main(): the update loop is not a single match".into()) };
+    if quote::ToTokens::to_token_stream(&m.expr).to_string().replace(' ', "") != binder { return Err("main(): the update loop matches on something else".into()); }
+    let mut arms = String::new();
+    let mut seen = vec![];
+    for arm in &m.arms {
+        let p = quote::ToTokens::to_token_stream(&arm.pat).to_string().replace(' ', "");
+        let (ctor, b) = if let Some(r) = p.strip_prefix("StatusUpdate::Copied(") { ("XuCopied", r.trim_end_matches(')').to_string()) }
+            else if let Some(r) = p.strip_prefix("StatusUpdate::Size(") { ("XuSize", r.trim_end_matches(')').to_string()) }
+            else if let Some(r) = p.strip_prefix("StatusUpdate::Error(") { ("XuError", r.trim_end_matches(')').to_string()) }
+            else { return Err(format!("main(): unexpected update pattern {}", p)) };
+        seen.push(ctor);
+        // body: logging dropped; `pb.inc(..)` / `pb.inc_size(..)` keep going; `return Err(e.into())` ends main
+        let stmts: Vec<String> = match &*arm.body {
+            Expr::Block(bl) => bl.block.stmts.iter().map(|s| txt(s)).collect(),
+            e => vec![quote::ToTokens::to_token_stream(e).to_string().replace(' ', "")],
+        };
+        let stmts: Vec<String> = stmts.into_iter().filter(|t| !(t.starts_with("error!") || t.starts_with("info!") || t.starts_with("warn!") || t.starts_with("debug!"))).collect();
+        let rhs = match stmts.as_slice() {
+            [t] if t.starts_with("pb.inc(") || t.starts_with("pb.inc_size(") => "x_main_collect rest handle".to_string(),
+            [t] if *t == format!("returnErr({}.into());", b) || *t == format!("returnErr({}.into())", b) => format!("Some {}", b),
+            other => return Err(format!("main(): unexpected body of the {} arm: {:?}", ctor, other)),
+        };
+        write!(arms, " | {} {} => {}", ctor, b, rhs).unwrap();
+    }
+    for c in ["XuCopied", "XuSize", "XuError"] { if !seen.contains(&c) { return Err(format!("main(): no arm for {}", c)); } }
+    // after the loop: the join of the driver thread, then only display calls and Ok(())
+    let mut joined = false;
+    for st in &block.stmts[pos + 1..] {
+        let t = txt(st);
+        if t.starts_with("info!") || t.starts_with("debug!") || t == "pb.end();" { continue; }
+        if t.starts_with("handle.join().map_err(|_|XcpError::CopyError(") && t.ends_with("))??;") && !joined { joined = true; continue; }
+        if t == "Ok(())" && joined { continue; }
+        return Err(format!("main(): unexpected statement after the update loop: {}", t));
+    }
+    if !joined { return Err("main(): the driver thread is not joined after the update loop".into()); }
+    Ok(format!("(* {}:{}  main(): collecting the status updates, then joining the driver thread: the exit status (None = 0) from the update stream and the driver's result *)\nInductive x_update := XuCopied (v : N) | XuSize (v : N) | XuError (e : N).\nFixpoint x_main_collect (stats : list x_update) (handle : option N) : option N :=\n  match stats with\n  | [] => match handle with Some e => Some e | None => None end\n  | {} :: rest => match {} with{} end\n  end.\n",
+               src.path, f.span().start().line, binder, binder, arms))
+}
+
 /// finalise_copy: the ordered (step code, guard is negated) list
 fn finalise_order(src: &Src) -> R<(Vec<(u64, bool)>, usize)> {
     let (_, block) = find_fn(src, "finalise_copy")?;
@@ -1910,6 +2010,7 @@ fn main() {
             let p3 = ["range_start", "range_end", "bsize"];
             let p4 = ["range_start", "range_end", "bsize", "blkn"];
             emit("parblock copy() joins", driver_join(&src, "x_parblock_copy_result"), &mut out);
+            emit("dispatch_worker error routes", error_routes(&src, "dispatch_worker", "x_parblock_error_routes"), &mut out);
             emit("queue_file_range.blocks", let_function(&src, "queue_file_range", "blocks", "x_qfr_blocks", &p3, "N", &[]), &mut out);
             emit("queue_file_range.bytes", let_function(&src, "queue_file_range", "bytes", "x_qfr_bytes", &p4, "N", &[]), &mut out);
             emit("queue_file_range.off", let_function(&src, "queue_file_range", "off", "x_qfr_off", &p4, "N", &[]), &mut out);
@@ -1928,6 +2029,7 @@ fn main() {
         Ok(src) => {
             emit("copy_worker.special", special_arm(&src, "copy_worker", "x_parfile_special"), &mut out);
             emit("parfile copy() joins", driver_join(&src, "x_parfile_copy_result"), &mut out);
+            emit("copy_worker error routes", error_routes(&src, "copy_worker", "x_parfile_error_routes"), &mut out);
         }
         Err(e) => emit("parfile.rs", Err(e), &mut out),
     }
@@ -1936,7 +2038,10 @@ fn main() {
         Err(e) => emit("feedback.rs", Err(e), &mut out),
     }
     match load(root, "src/main.rs") {
-        Ok(src) => emit("main validation", main_validation(&src), &mut out),
+        Ok(src) => {
+            emit("main validation", main_validation(&src), &mut out);
+            emit("main update loop", main_collect(&src), &mut out);
+        }
         Err(e) => emit("src/main.rs", Err(e), &mut out),
     }
     match load(root, "src/options.rs") {
